@@ -32,7 +32,11 @@ def sample_pre(spec, rnd):
     pool = spec.get("atom_pool") or list(atoms_by_code)
     refs = {}
     reals = []
-    for path, sort in spec["observables"]:
+    for ob in spec["observables"]:
+        path, sort = ob[0], ob[1]
+        if sort.endswith("=const"):
+            pre[path] = dict(sort=sort[:-6], value=ob[2])
+            continue
         if path.endswith("?none"):
             pre[path] = dict(sort="Bool", value="True" if rnd.random() < 0.2 else "False")
         elif path.endswith("@ref"):
@@ -79,7 +83,7 @@ def main():
     evaluations = accepted = 0
     seen = set()
     failures = []
-    params = sorted({p.split(".")[0].split("[")[0].split("@")[0].split("?")[0] for p, s in spec["observables"]})
+    params = sorted({ob[0].split(".")[0].split("[")[0].split("@")[0].split("?")[0] for ob in spec["observables"]})
     for it in range(spec.get("n", 300)):
         pre = sample_pre(spec, rnd)
         rec = dict(pre_state=pre, atoms=spec["atoms"])
@@ -92,7 +96,8 @@ def main():
         env.update(args)
         evaluations += 1
         try:
-            if not all(eval(r, env) for r in spec["requires"]):
+            import native_dsl
+            if not all(eval(compile(native_dsl.tolerant(ast.parse(r, mode="eval")), "<req>", "eval"), env) for r in spec["requires"]):
                 continue
         except Exception:
             continue
@@ -104,7 +109,8 @@ def main():
         try:
             for label, text in spec["ensures"]:
                 rew = RP.OldRewriter()
-                tree = rew.visit(ast.parse(text, mode="eval"))
+                import native_dsl
+                tree = native_dsl.tolerant(rew.visit(ast.parse(text, mode="eval")))
                 olds = {}
                 for i, o in enumerate(rew.olds):
                     olds["__old_%d" % i] = copy.deepcopy(eval(compile(ast.Expression(o), "<old>", "eval"), env))
@@ -115,7 +121,7 @@ def main():
         when_pre = []
         for r in spec.get("raises", []):
             try:
-                when_pre.append(bool(eval(r["when"], env)) if r.get("when") else True)
+                when_pre.append(bool(eval(compile(native_dsl.tolerant(ast.parse(r["when"], mode="eval")), "<when>", "eval"), env)) if r.get("when") else True)
             except Exception:
                 when_pre.append(None)
         exc = None
